@@ -657,12 +657,17 @@ def call(fr, callee, args, ctx):
     if m: return Wrapper(m.group(1), args[0])
     if c.startswith("<Cow<'_, [std::string::String]> as Deref>::deref"): return args[0].get()
     if c == '<I as IntoIterator>::into_iter': return SliceIter([Ref(Cell(e)) for e in args[0].get().items])
-    if c.endswith('as Iterator>::collect::<Vec<String>>') or c.endswith('as Iterator>::collect::<Vec<std::string::String>>'):
+    if c.endswith('as Iterator>::collect::<Vec<String>>') or c.endswith('as Iterator>::collect::<Vec<std::string::String>>') or c.endswith('as Iterator>::collect::<Vec<T>>'):
         out = []
         while True:
             item = iter_next(args[0], ctx)
             if item is None: return VecV(out)
             out.append(item)
+    if re.fullmatch(r'Vec::<.*>::swap_remove', c):
+        v_ = _d(args[0]); i_ = concrete_index(args[1])
+        if i_ >= len(v_.items): raise Panic('swap_remove index out of bounds') if 'Panic' in globals() else NotEncodable('swap_remove out of bounds')
+        x_ = v_.items[i_]; v_.items[i_] = v_.items[-1]; v_.items.pop()
+        return x_
     if c == '<<I as IntoIterator>::Item as ToString>::to_string':
         v = args[0].get(); v = v.get() if isinstance(v, Ref) else v
         if isinstance(v, Struct) and len(v.f) == 2:          # Tag: Display is "(GGGG,EEEE)" upper-case hex (C14 Kani result)
@@ -913,6 +918,14 @@ def call(fr, callee, args, ctx):
         lo, hi = {'RangeFrom': lambda: (vals[0], len(s_.b)), 'RangeTo': lambda: (0, vals[0]), 'Range': lambda: (vals[0], vals[1])}[mg_.group(1)]()
         if lo > hi or hi > len(s_.b): return Enum('None', [])
         return Enum('Some', [Str(s_.b[lo:hi])])
+    msg_ = re.fullmatch(r'core::slice::<impl \[(?:u8|T)\]>::get::<(?:std::ops::)?(RangeFrom|RangeTo|Range)<usize>>', c)
+    if msg_:
+        s_ = _d(args[0]); r_ = args[1]
+        xs_ = s_.b if hasattr(s_, 'b') else s_.items
+        vals = [concrete_index(x) for x in (r_.f if isinstance(r_, Struct) else r_)]
+        lo, hi = {'RangeFrom': lambda: (vals[0], len(xs_)), 'RangeTo': lambda: (0, vals[0]), 'Range': lambda: (vals[0], vals[1])}[msg_.group(1)]()
+        if lo > hi or hi > len(xs_): return Enum('None', [])
+        return Enum('Some', [VecV(list(xs_[lo:hi]))])
     mss_ = re.fullmatch(r"core::str::<impl str>::strip_(suffix|prefix)::<(\{closure@.*\}|char)>", c)
     if mss_:
         b = list(_d(args[0]).b)
